@@ -1,3 +1,155 @@
+/-
+  C11 — CompoundPacket enforces the RFC 3550 compound rules exactly. All sequences, every length.
+-/
 import Rtcp.Lemmas.Safe6
 namespace Rtcp.C11
+open Rtcp Gen Out
+set_option linter.unusedSimpArgs false
+set_option linter.unusedVariables false
+
+/-- the grammar of the property, written without looking at the code:
+first packet SR or RR; then any number of RR; then an SDES that contains a CNAME item; then anything. -/
+inductive ValidTail : List Packet → Prop
+  | sdes (s : SourceDescription) (rest : List Packet) (h : ∃ c ∈ s.chunks, ∃ it ∈ c.items, it.type = 1) : ValidTail (.sdes s :: rest)
+  | rr (r : ReceiverReport) (rest : List Packet) (h : ValidTail rest) : ValidTail (.rr r :: rest)
+
+inductive ValidCompound : List Packet → Prop
+  | sr (v : SenderReport) (rest : List Packet) (h : ValidTail rest) : ValidCompound (.sr v :: rest)
+  | rr (v : ReceiverReport) (rest : List Packet) (h : ValidTail rest) : ValidCompound (.rr v :: rest)
+
+theorem hasCNAME_iff (s : SourceDescription) : sdesHasCNAME s = true ↔ ∃ c ∈ s.chunks, ∃ it ∈ c.items, it.type = 1 := by
+  simp [sdesHasCNAME, List.any_eq_true]
+
+theorem validateRest_iff (ps : List Packet) : validateRest ps = .ok () ↔ ValidTail ps := by
+  induction ps with
+  | nil => simp [validateRest]; intro h; cases h
+  | cons p ps ih =>
+    cases p <;> simp only [validateRest]
+    case rr v =>
+      rw [ih]
+      constructor
+      · intro h; exact .rr v ps h
+      · intro h; cases h; assumption
+    case sdes s =>
+      constructor
+      · intro h
+        split at h
+        · rename_i hc; exact .sdes s ps ((hasCNAME_iff s).mp hc)
+        · cases h
+      · intro h
+        cases h with
+        | sdes _ _ hc => rw [if_pos ((hasCNAME_iff s).mpr hc)]
+    all_goals (constructor <;> intro h <;> cases h)
+
+/-- **Validate** succeeds exactly for the sequences of the grammar -/
+theorem validate_iff (ps : List Packet) : cval ps = .ok () ↔ ValidCompound ps := by
+  cases ps with
+  | nil => simp [cval]; intro h; cases h
+  | cons p ps =>
+    cases p <;> simp only [cval]
+    case sr v =>
+      rw [validateRest_iff]
+      constructor
+      · intro h; exact .sr v ps h
+      · intro h; cases h; assumption
+    case rr v =>
+      rw [validateRest_iff]
+      constructor
+      · intro h; exact .rr v ps h
+      · intro h; cases h; assumption
+    all_goals (constructor <;> intro h <;> cases h)
+
+theorem cval_cases (ps : List Packet) : cval ps = .ok () ∨ cval ps = .err := by
+  have hv : ∀ ps, validateRest ps = .ok () ∨ validateRest ps = .err := by
+    intro ps
+    induction ps with
+    | nil => simp [validateRest]
+    | cons p ps ih =>
+      cases p <;> simp only [validateRest] <;> first | exact ih | (split <;> simp) | simp
+  cases ps with
+  | nil => simp [cval]
+  | cons p ps => cases p <;> simp only [cval] <;> first | exact hv ps | simp
+
+/-- **Marshal** succeeds exactly when Validate does and every member marshals -/
+theorem cenc_iff (ps : List Packet) : (∃ b, cenc ps = .ok b) ↔ (cval ps = .ok () ∧ ∃ b, uenc ps = .ok b) := by
+  unfold cenc
+  rcases cval_cases ps with h | h <;> simp [h]
+
+/-- **Unmarshal** succeeds exactly when the datagram's frames decode and the result validates -/
+theorem cdec_iff (b : Bytes) (ps : List Packet) :
+    cdec b = .ok ps ↔ (unmarshalLoop (b.length + 1) b = .ok ps ∧ cval ps = .ok ()) := by
+  unfold cdec
+  constructor
+  · intro h
+    obtain ⟨qs, hq, h⟩ := bind_eq_ok.mp h
+    obtain ⟨_, hv, h⟩ := bind_eq_ok.mp h
+    simp at h; subst h
+    exact ⟨hq, hv⟩
+  · rintro ⟨h1, h2⟩
+    simp [h1, h2]
+
+/-- a non-empty decodable datagram that validates is exactly what `rtcp.Unmarshal` returns -/
+theorem cdec_udec (b : Bytes) (ps : List Packet) (h : cdec b = .ok ps) : udec b = .ok ps := by
+  have ⟨h1, h2⟩ := (cdec_iff b ps).mp h
+  unfold udec
+  simp only [h1, bind_ok]
+  have : ps.length ≠ 0 := by
+    intro h0
+    have : ps = [] := List.eq_nil_of_length_eq_zero h0
+    subst this
+    simp [cval] at h2
+  simp [this]
+
+/-- first CNAME text of the first SDES that has one, scanning `c[1:]` -/
+def firstCNAME : List Packet → Option Bytes
+  | [] => none
+  | .sdes s :: ps => match sdesFirstCNAME s with
+    | some t => some t
+    | none => firstCNAME ps
+  | _ :: ps => firstCNAME ps
+
+theorem sdesFirstCNAME_some_of_has (s : SourceDescription) (h : sdesHasCNAME s = true) : ∃ t, sdesFirstCNAME s = some t := by
+  simp only [sdesFirstCNAME]
+  have : ∃ it, it ∈ s.chunks.flatMap (·.items) ∧ it.type = SDESCNAME := by
+    obtain ⟨c, hc, it, hit, ht⟩ := (hasCNAME_iff s).mp h
+    exact ⟨it, List.mem_flatMap.mpr ⟨c, hc, hit⟩, by simpa using ht⟩
+  obtain ⟨it, hmem, ht⟩ := this
+  have hne : (s.chunks.flatMap (·.items)).find? (·.type = SDESCNAME) ≠ none := by
+    intro hn
+    have := List.find?_eq_none.mp hn it hmem
+    simp [ht] at this
+  cases hf : (s.chunks.flatMap (·.items)).find? (·.type = SDESCNAME) with
+  | none => exact absurd hf hne
+  | some x => exact ⟨x.text, by simp⟩
+
+/-- whenever Validate succeeds, **CNAME()** returns a text without error: the first CNAME item of the SDES
+that made the compound valid -/
+theorem cname_ok_of_valid (ps : List Packet) (h : cval ps = .ok ()) : ∃ t, ccname ps = .ok t := by
+  have hr : ∀ ps, validateRest ps = .ok () → ∃ t, cnameRest ps false = .ok t := by
+    intro ps
+    induction ps with
+    | nil => simp [validateRest]
+    | cons p ps ih =>
+      cases p <;> simp only [validateRest, cnameRest] <;> first | exact ih | (intro h; cases h) | skip
+      intro hs
+      split at hs
+      · rename_i hc
+        obtain ⟨t, ht⟩ := sdesFirstCNAME_some_of_has _ hc
+        simp [ht]
+      · cases hs
+  cases ps with
+  | nil => simp [cval] at h
+  | cons p ps =>
+    cases p <;> simp only [cval] at h <;> first | exact hr ps h | cases h
+
+/-- **DestinationSSRC** is the first member's, **MarshalSize** the sum over all members -/
+theorem cdst_first (p : Packet) (ps : List Packet) : cdst (p :: ps) = p.dest := rfl
+theorem csize_sum (ps : List Packet) : csize ps = (ps.map Packet.marshalSize).sum := rfl
+theorem csize_cons (p : Packet) (ps : List Packet) : csize (p :: ps) = p.marshalSize + csize ps := by simp [csize]
+
+/-- non-vacuity: RR, RR, SDES(CNAME) is valid; RR, SDES(NAME), SDES(CNAME) is not -/
+example : cval [.rr {}, .rr {}, .sdes { chunks := [{ source := 1, items := [⟨1, [97]⟩] }] }] = .ok () := by decide
+example : cval [.rr {}, .sdes { chunks := [{ source := 1, items := [⟨2, [97]⟩] }] },
+                .sdes { chunks := [{ source := 1, items := [⟨1, [97]⟩] }] }] = .err := by decide
+
 end Rtcp.C11
